@@ -96,6 +96,109 @@ theorem foldl_filter_blocked : ∀ (hist : List LoadCfg) (s : Life),
     · have : (c.loc != .blocked) = true := by simpa using hb
       simp [List.filter_cons, this, ih (load s c)]
 
+
+-- ---------------------------------------------------------------- loads that are rejected late
+
+theorem attempt_none (s : Life) (c : LoadCfg) : attempt s ⟨c, .none⟩ = load s c := by
+  unfold attempt load
+  by_cases h : c.loc = .blocked <;> simp [h, replaceLocal]
+
+theorem foldl_attempt_none : ∀ (hist : List LoadCfg) (s : Life),
+    (hist.map (fun c => (⟨c, .none⟩ : Attempt))).foldl attempt s = hist.foldl load s := by
+  intro hist
+  induction hist with
+  | nil => intro s; rfl
+  | cons c cs ih => intro s; simp only [List.map_cons, List.foldl_cons, attempt_none, ih]
+
+/-- `replaceLocalAdminServer` past the bind: afterwards exactly the endpoint THIS config asks for
+    listens, and the variable points at it -/
+theorem replaceLocal_step (s : Life) (c : LoadCfg) (hnb : c.loc ≠ .blocked) (hl : LocalInv s) :
+    LocalInv (replaceLocal s c) ∧
+    (replaceLocal s c).liveLocal =
+      (match c.loc.endpoint with | some (a, t) => [⟨s.next, a, t⟩] | none => []) := by
+  have hstopL := stopL_inv s hl
+  unfold replaceLocal LocalInv LocalCfg.endpoint
+  cases hc : c.loc with
+  | disabled => simp [hstopL]
+  | absent => simp [hstopL]
+  | listen a t => simp [hstopL]
+  | blocked => exact absurd hc hnb
+
+/-- the remote server that listens (if any) is the one the RUNNING config configures -/
+def RemoteCur (s : Life) (cur : Option LoadCfg) : Prop :=
+  ∀ srv, srv ∈ s.liveRemote → ∃ c, cur = some c ∧ c.remote = some (srv.addr, srv.acl)
+
+theorem attempt_blocked (s : Life) (a : Attempt) (hb : a.cfg.loc = .blocked) : attempt s a = s := by
+  simp [attempt, hb]
+
+theorem runningStep_not_accepted (cur : Option LoadCfg) (a : Attempt) (h : a.accepted = false) :
+    runningStep cur a = cur := by simp [runningStep, h]
+
+/-- one load that gets past the bind of its local listener, ACCEPTED OR REJECTED LATE -/
+theorem attempt_step (s : Life) (cur : Option LoadCfg) (a : Attempt) (hnb : a.cfg.loc ≠ .blocked)
+    (hr : RemoteInv s) (hl : LocalInv s) (hc : RemoteCur s cur) :
+    RemoteInv (attempt s a) ∧ LocalInv (attempt s a) ∧ RemoteCur (attempt s a) (runningStep cur a) ∧
+    (attempt s a).liveLocal =
+      (match a.cfg.loc.endpoint with | some (ad, t) => [⟨s.next, ad, t⟩] | none => []) := by
+  have hloc := replaceLocal_step s a.cfg hnb hl
+  have hrl := replaceLocal_remote s a.cfg
+  have hr' : RemoteInv (replaceLocal s a.cfg) := by
+    unfold RemoteInv; rw [hrl.1, hrl.2]; exact hr
+  have hstopR := stopR_inv _ hr'
+  have hloc2 := replaceRemote_local (replaceLocal s a.cfg) a.cfg
+  cases hf : a.fail with
+  | none =>
+    have hatt : attempt s a = replaceRemote (replaceLocal s a.cfg) a.cfg := by simp [attempt, hnb, hf]
+    have hacc : runningStep cur a = some a.cfg := by simp [runningStep, Attempt.accepted, hnb, hf]
+    rw [hatt, hacc]
+    refine ⟨?_, ?_, ?_, ?_⟩
+    · unfold replaceRemote RemoteInv
+      cases a.cfg.remote with
+      | none => simp [hstopR]
+      | some p => cases p; simp [hstopR]
+    · unfold LocalInv; rw [hloc2.1, hloc2.2]; exact hloc.1
+    · intro srv hsrv
+      refine ⟨a.cfg, rfl, ?_⟩
+      unfold replaceRemote at hsrv
+      cases hrem : a.cfg.remote with
+      | none => simp [hrem, hstopR] at hsrv
+      | some p => cases p; simp [hrem, hstopR] at hsrv; subst hsrv; rfl
+    · rw [hloc2.1]; exact hloc.2
+  | prov =>
+    have hatt : attempt s a = replaceLocal s a.cfg := by simp [attempt, hnb, hf]
+    have hacc : runningStep cur a = cur := runningStep_not_accepted cur a (by simp [Attempt.accepted, hf])
+    rw [hatt, hacc]
+    refine ⟨hr', hloc.1, ?_, hloc.2⟩
+    intro srv hsrv; rw [hrl.1] at hsrv; exact hc srv hsrv
+  | key =>
+    have hatt : attempt s a = replaceRemoteKeyErr (replaceLocal s a.cfg) := by simp [attempt, hnb, hf]
+    have hacc : runningStep cur a = cur := runningStep_not_accepted cur a (by simp [Attempt.accepted, hf])
+    rw [hatt, hacc]
+    refine ⟨?_, ?_, ?_, ?_⟩
+    · left; simp [replaceRemoteKeyErr, hstopR]
+    · exact hloc.1
+    · intro srv hsrv; simp [replaceRemoteKeyErr, hstopR] at hsrv
+    · exact hloc.2
+
+theorem foldl_attempt_inv : ∀ (hist : List Attempt) (s : Life) (cur : Option LoadCfg),
+    RemoteInv s → LocalInv s → RemoteCur s cur →
+    RemoteInv (hist.foldl attempt s) ∧ LocalInv (hist.foldl attempt s) ∧
+    RemoteCur (hist.foldl attempt s) (hist.foldl runningStep cur) := by
+  intro hist
+  induction hist with
+  | nil => intro s cur hr hl hc; exact ⟨hr, hl, hc⟩
+  | cons a as ih =>
+    intro s cur hr hl hc
+    by_cases hb : a.cfg.loc = .blocked
+    · have hna : a.accepted = false := by simp [Attempt.accepted, hb]
+      simp only [List.foldl_cons, attempt_blocked s a hb, runningStep_not_accepted cur a hna]
+      exact ih s cur hr hl hc
+    · have h := attempt_step s cur a hb hr hl hc
+      exact ih (attempt s a) (runningStep cur a) h.1 h.2.1 h.2.2.1
+
+theorem init_remoteCur : RemoteCur Life.init none := by
+  intro srv hsrv; simp [Life.init] at hsrv
+
 theorem init_inv : RemoteInv Life.init ∧ LocalInv Life.init := ⟨Or.inl rfl, Or.inl rfl⟩
 
 end CaddyModel.C13
